@@ -13,6 +13,7 @@ Clause(r) ==
   CASE r.op = "load"  -> IF \A x, y \in SeqSet(r.evs) : x.id = y.id => x = y THEN "none" ELSE "duplicate-ids-in-listing"
     [] r.op = "get"   -> ReadClause(evs, r.res, r.lim, r.w)
     [] r.op = "count" -> IF CountAdmissible(evs, r.n, r.w) THEN "none" ELSE "count-disagrees-with-window"
+    [] r.op = "raised" -> "read-raised"
     [] OTHER          -> "unknown-record"
 
 Init == tid \in 1..Len(Traces) /\ l = 1 /\ evs = {}
